@@ -105,6 +105,19 @@ Theorem C05_join_matches_reference_group_right :
 Proof. exact run_operator_matches_reference_otm. Qed.
 Print Assumptions C05_join_matches_reference_group_right.
 
+(* ... with multiplicities, for every cardinality: the engine's samples at a step
+   are a permutation of the reference's (where the reference succeeds) *)
+Theorem C05_join_step_is_permutation :
+  forall (V : Type) (op : V -> V -> V * bool) (b2v : bool -> V) (on : bool) (ml incl : list N)
+         (c : card) (return_bool op_drops_name : bool) (dflt : V) (lhs_series rhs_series : list labels),
+  one_side_unique on ml (one_side_series c lhs_series rhs_series) ->
+  (is_one_to_one c = true -> incl = []) ->
+  forall (s : Z * list (nat * V) * list (nat * V)) out, good_step V lhs_series rhs_series s ->
+  ref_operator_step V op b2v on ml incl c return_bool op_drops_name lhs_series rhs_series (snd (fst s)) (snd s) = Some out ->
+  Permutation.Permutation (step_samples V op b2v on ml incl c return_bool op_drops_name lhs_series rhs_series s) out.
+Proof. exact join_step_permutation. Qed.
+Print Assumptions C05_join_step_is_permutation.
+
 (* the label sets of the output series are the reference's resultMetric *)
 Theorem C05_output_labels :
   forall on ml incl c return_bool op_drops_name lm rm,
@@ -138,6 +151,4 @@ Print Assumptions C05_series_level_join_refuted.
 (* PARTIAL. Values of the arithmetic operators are IEEE doubles in the
    correspondence check and abstract in the theorems; the reference's behaviour
    on inputs where it fails (duplicate signatures at a step) is not related to
-   the engine's errors by a theorem: the engine deviates there (F20). The
-   theorems compare the samples as sets; multiplicities are compared by the
-   correspondence check and the reference oracle. *)
+   the engine's errors by a theorem: the engine deviates there (F20). *)
